@@ -80,6 +80,7 @@ func C17(p *engine.Prog, r *engine.Report) {
 	c17R7(p, r)
 	c17R8(p, r)
 	c17R9(p, r)
+	c17R10(p, r)
 }
 
 func c17R1(p *engine.Prog, r *engine.Report, consts map[int64]string, nob map[int64]bool) {
@@ -903,4 +904,94 @@ func c17R9(p *engine.Prog, r *engine.Report) {
 	}
 	// and the restore path hands every stored element to the same handler
 	r.Floor("C17-R9", 1, "scan callback")
+}
+
+// c17R10: (a) the evidence maps that vote on a shard's candidates are selected by that shard's own
+// candidate set (bitmaps are indexed by position in the sender's shard); (b) the answer store is
+// rewritten as a whole on every persist: EpochDb.WriteAnswers writes both lists on every path, so a
+// list emptied by a reorg overwrites the stored one.
+func c17R10(p *engine.Prog, r *engine.Report) {
+	if f := mustFunc(p, r, "core/ceremony", "ValidationCeremony.readEvidenceMaps"); f != nil && len(f.Params) >= 2 {
+		r.Fn(engine.FuncName(f))
+		shard := ssa.Value(f.Params[1])
+		n := 0
+		for _, b := range f.Blocks {
+			for _, ins := range b.Instrs {
+				c, isCall := ins.(*ssa.Call)
+				if !isCall {
+					continue
+				}
+				if bi, isB := c.Call.Value.(*ssa.Builtin); !isB || bi.Name() != "append" {
+					continue
+				}
+				// the append of a stored map (not the set construction)
+				if sl, isSl := c.Type().Underlying().(*types.Slice); !isSl || sl.Elem().String() != "[]byte" {
+					continue
+				}
+				n++
+				ok := false
+				for _, d := range f.Blocks {
+					if len(d.Instrs) == 0 {
+						continue
+					}
+					iff, isIf := d.Instrs[len(d.Instrs)-1].(*ssa.If)
+					if !isIf {
+						continue
+					}
+					controls := false
+					for _, s := range d.Succs {
+						if len(s.Preds) == 1 && s.Dominates(b) {
+							controls = true
+						}
+					}
+					if !controls {
+						continue
+					}
+					// one condition that relates the map's sender to the requested shard's candidates
+					ofShard, ofSender := false, false
+					for v := range engine.BackSlice(iff.Cond, engine.DefaultSlice) {
+						if lk, isLk := v.(*ssa.Lookup); isLk {
+							if _, isSC := loadOfField(lk.X, "ValidationCeremony", "shardCandidates"); isSC && engine.Origin(lk.Index) == shard {
+								ofShard = true
+							}
+						}
+						if _, fld, isF := engine.FieldOf(v); isF && fld == "Sender" {
+							ofSender = true
+						}
+					}
+					if ofShard && ofSender {
+						ok = true
+					}
+				}
+				r.Check(ok, "C17-R10", "readEvidenceMaps|a map counts only if its sender is a candidate of the requested shard", p.InstrPos(c), "membership in vc.shardCandidates[shardId].candidates", "evidence maps are not filtered by the requested shard's own candidates: bitmaps are positions in the sender's shard, so maps of other shards vote for unrelated identities and raise the majority threshold — who is approved depends on the other shards")
+			}
+		}
+		if n == 0 {
+			r.Und("C17-R10", "readEvidenceMaps|selection", p.Pos(f.Pos()), "no append of an evidence map found")
+		}
+	}
+	if f := mustFunc(p, r, "database", "EpochDb.WriteAnswers"); f != nil {
+		r.Fn(engine.FuncName(f))
+		n := 0
+		for _, c := range engine.Calls(f) {
+			if !engine.CallNameIs(c, "Set") || c.Parent() != f {
+				continue
+			}
+			n++
+			ok := true
+			for b := range engine.ReachAvoiding(f, f.Blocks[0], nil, map[*ssa.BasicBlock]bool{c.Block(): true}) {
+				if len(b.Instrs) > 0 {
+					if _, isRet := b.Instrs[len(b.Instrs)-1].(*ssa.Return); isRet {
+						ok = false
+					}
+				}
+			}
+			if c.Block() == f.Blocks[0] {
+				ok = true
+			}
+			r.Check(ok, "C17-R10", uniq(r, "EpochDb.WriteAnswers|the stored list is overwritten on every path"), p.InstrPos(c), "unconditional Set", "a persist can return without writing this list (e.g. when it is empty): after a reorg removed the last answers the old list stays in the epoch db, and a node that restarts evaluates the epoch with answers that are in no block")
+		}
+		r.Check(n >= 2, "C17-R10", "EpochDb.WriteAnswers|both lists are written", p.Pos(f.Pos()), itoa(int64(n))+" writes", "fewer than two writes: short or long answers are not persisted")
+	}
+	r.Floor("C17-R10", 3, "evidence selection + two list writes")
 }
